@@ -66,3 +66,12 @@ claim(
     "abstract interpretation over a stencil (shifted-atom) array domain; polynomial identity against the Levi-Civita oracle",
     "DESIGN.md §5 C01",
 )
+
+claim(
+    "C02",
+    "other",
+    "Decides, as polynomial identities over the reals extended by symbolic atoms, that the composition backward(forward(state)) computed by the abstract interpreter from the current source returns the initial E, H and step counter, on every path the property names: isotropic/diagonal materials x {lossless, electric loss, magnetic loss, both}, scalar permeability, fully anisotropic lossless tensors, zero/periodic halos, Bloch phases on complex fields, PEC/PMC walls on every axis (initial state projected with the repo's own wall hooks), non-uniform metric scales, always-on and scheduled sources with opaque switch/time map. Sources are abstract in that composition (F + sign*J(time argument)); that every exported source class has this form (additive .at[].add, one inverse-controlled sign factor, magnitude and region independent of the field and of `inverse`, no inverse-controlled return) is decided per class by a def-use rule on update_E/update_H and their helpers. Round-off, temporal-profile values and lossy full tensors are not decided.",
+    TB + "; sa/ndarr.py stencil/indicator array model; abstract source and lax.cond-as-select models; sa/srcflow.py flow-insensitive def-use closure (control dependences included); non-uniform scenarios use one opaque metric atom per (axis, stencil)",
+    "abstract interpretation of forward() then backward() to rational normal forms over a stencil domain, identity by cross-multiplication; syntax-tree def-use (taint) rule for the source classes",
+    "DESIGN.md §5 C02",
+)
